@@ -22,6 +22,11 @@
    embedded struct whose type name is lower-case, values of a registered record type are
    of that type; [supported] — [vok] without the Edge restriction.
 
+   Embedded fields: only an embedded field whose type is a struct is flattened into the outer
+   struct ([flattened]); an embedded field of another type (type MyInt int, *Inner) is an ordinary
+   field named after its type (/repo: extractFields tests reflectField.Type.Kind() == reflect.Struct;
+   before, such a struct made the iterator panic).  See C05_embedded_non_struct_pinned.
+
    History: the earlier version of this file refuted the property on eight defect classes.
    Four are repaired in /repo, their witnesses pinned below and in the harness: bool slices
    longer than 8 (734b6c6), records omitting a declared field (8413af6), arrays panicking under
@@ -376,4 +381,37 @@ Example C05_example_time :
   /\ vok default_rcfg cfg_plain 0 bad = false /\ supported default_rcfg cfg_plain 0 bad = false
   /\ iterate cfg_plain (Some bad) = [EBeginDoc; EVersion 0; ETime (0 :: tok); EEndDoc]
   /\ rejected_at default_rcfg (iterate cfg_plain (Some bad)) = Some 2.
+Proof. vm_compute. repeat split. Qed.
+
+(* repaired in /repo (extractFields flattens only embedded structs; it used to call NumField on the
+   embedded type and panic): E1{MyInt: 5, B: 6} with type MyInt int is the map my_int = 5, b = 6;
+   E2{&Inner{7}, 8} with an embedded *Inner is inner = {a = 7}, b = 8; with a nil *Inner the field is
+   omitted like any empty field (as a record it is carried as null); all inside the fragment *)
+Example C05_embedded_non_struct_pinned :
+  let fld n := mkF n true false ODefault 9223372036854775807%Z in
+  let emb n := mkF n true true ODefault 9223372036854775807%Z in
+  let myint := [77; 121; 73; 110; 116] in
+  let inner := [73; 110; 110; 101; 114] in
+  let e1 := VStruct 1 [(emb myint, VInt 5); (fld [66], VInt 6)] in
+  let e2 p := VStruct 2 [(emb inner, p); (fld [66], VInt 8)] in
+  let some := VPtr 1 (VStruct 3 [(fld [65], VInt 7)]) in
+  let cfg_r := mkCfg true false OEmpty [mkRT [114] 2 [(emb inner, VNilPtr); (fld [66], VInt 0)]] in
+  let s := EStringArray AT_String in
+  iterate cfg_plain (Some e1)
+  = [EBeginDoc; EVersion 0; EMap; s [109; 121; 95; 105; 110; 116]; EInt 5; s [98]; EInt 6; EEnd; EEndDoc]
+  /\ iterate cfg_plain (Some (e2 some))
+     = [EBeginDoc; EVersion 0; EMap; s [105; 110; 110; 101; 114]; EMap; s [97]; EInt 7; EEnd; s [98]; EInt 8; EEnd; EEndDoc]
+  /\ iterate cfg_plain (Some (e2 VNilPtr)) = [EBeginDoc; EVersion 0; EMap; s [98]; EInt 8; EEnd; EEndDoc]
+  /\ iterate cfg_r (Some (e2 VNilPtr))
+     = [EBeginDoc; EVersion 0; ERecordType [114]; s [105; 110; 110; 101; 114]; s [98]; EEnd; ERecord [114]; ENull; EInt 8; EEnd; EEndDoc]
+  /\ vok default_rcfg cfg_plain 0 e1 = true /\ descr cfg_plain e1 = true
+  /\ vok default_rcfg cfg_plain 0 (e2 some) = true /\ descr cfg_plain (e2 some) = true
+  /\ vok default_rcfg cfg_r 0 (e2 VNilPtr) = true /\ descr cfg_r (e2 VNilPtr) = true
+  /\ head_ok default_rcfg cfg_r = true /\ records_ok cfg_r = true
+  /\ read_doc (iterate cfg_plain (Some e1)) = Some (canon cfg_plain e1)
+  /\ read_doc (iterate cfg_plain (Some (e2 some))) = Some (canon cfg_plain (e2 some))
+  /\ read_doc (iterate cfg_plain (Some (e2 VNilPtr))) = Some (canon cfg_plain (e2 VNilPtr))
+  /\ read_doc (iterate cfg_r (Some (e2 VNilPtr))) = Some (canon cfg_r (e2 VNilPtr))
+  /\ canon cfg_plain (e2 some)
+     = DMap [(DString [105; 110; 110; 101; 114], DMap [(DString [97], DScalar (EInt 7))]); (DString [98], DScalar (EInt 8))].
 Proof. vm_compute. repeat split. Qed.
